@@ -179,5 +179,7 @@ pub fn run(ctx: &mut Ctx) {
     for (idx, (s, e)) in cases.iter().enumerate() {
         if poisoned.contains(&idx) || s.len() > 2000 { ctx.eval(s, true); continue; }
         let _ = crate::props::c06::recipe_case(ctx, s, *e, (idx % 2) as u8);
+        // the model's `buildAst` (the subject of the build_ast no-panic theorems) against `build_ast` of the code
+        crate::props::c04::ast_case(ctx, s, *e, &format!("ext={e} input={s:?}"));
     }
 }
